@@ -403,9 +403,40 @@ class Model:
     def set_choices_text(self, m, value):
         return ",".join("%s=%d" % (c["name"], (value >> c["index"]) & 1) for c in m.target["choices"]) or "-"
 
+    def is_null(self, m, value):
+        """optional scalar: does the raw value denote null (SBE default or explicit nullValue; NaN null means is-NaN)"""
+        size, kind = PRIMS[m.prim]
+        mask = 2 ** (8 * size) - 1
+        text = m.target.get("null") if m.target else None
+        if kind == "f":
+            ebits, mbits = (8, 23) if size == 4 else (11, 52)
+            def isnan(b):
+                return ((b >> mbits) & (2 ** ebits - 1)) == 2 ** ebits - 1 and (b & (2 ** mbits - 1)) != 0
+            if text is None or text == "NaN":
+                return isnan(value & mask)
+            nb = const_numeric_bits(text, m.prim)
+            if isnan(value & mask):
+                return False
+            # floating-point equality: +0.0 == -0.0
+            import struct
+            f = lambda b: struct.unpack("<f" if size == 4 else "<d", b.to_bytes(size, "little"))[0]
+            return f(value & mask) == f(nb)
+        if text is None:
+            if kind == "c":
+                nb = 0
+            elif kind == "u":
+                nb = mask
+            else:
+                nb = 2 ** (8 * size - 1)
+        else:
+            nb = int(text) & mask
+        return (value & mask) == nb
+
     def dump_member(self, m, value, out, comp_consts=True, vis_extras=False):
         if m.kind in ("scalar", "enum", "set"):
             out.append("F %s %x" % (m.name, value & (2 ** (8 * m.size) - 1)))
+            if m.kind == "scalar" and m.presence == "optional" and self.null_flags:
+                out.append("null" if self.is_null(m, value) else "hv")
             if vis_extras and m.kind == "enum":
                 out.append("V %s" % self.enum_value_name(m, value))
             if vis_extras and m.kind == "set":
@@ -443,8 +474,11 @@ class Model:
             p = vals["data"][d.name]
             out.append("D %s %d %s" % (d.name, len(p), p.hex() or "-"))
 
-    def dump_message(self, L, vals, with_consts=True, comp_consts=True, vis_extras=False):
+    null_flags = False
+
+    def dump_message(self, L, vals, with_consts=True, comp_consts=True, vis_extras=False, null_flags=False):
         out = []
+        self.null_flags = null_flags
         self.dump_level(L, vals, out, vals.get("extra", 0), with_consts, comp_consts, vis_extras)
         return " ".join(out)
 
